@@ -30,6 +30,7 @@ THEOREMS = [
     'AiutiVerif.CrossLoop.C17_awaitable_moves_forward',
     'AiutiVerif.CrossLoop.C17_borrow_returns',
     'AiutiVerif.CrossLoop.C17_helper_steps_bounded',
+    'AiutiVerif.CrossLoop.C17_no_lock_left_behind',
     'AiutiVerif.CrossLoop.inv_step',
 ]
 ASSUMPTIONS = [
